@@ -13,3 +13,16 @@ Theorem C18_prefix : forall p v r,
   forallb is_ident_char v = true.
 Proof. exact ident_prefix_spec. Qed.
 Print Assumptions C18_prefix.
+
+(* the converse: the constructors accept EXACTLY the identifiers of the specification - nothing the
+   specification admits is refused (a panic in the code) *)
+Theorem C18_const_exact : forall v,
+  identifier_from_constant v = (if ident_spec v then Some v else None).
+Proof. exact ident_const_exact. Qed.
+Print Assumptions C18_const_exact.
+
+Theorem C18_prefix_exact : forall p v,
+  identifier_from_constant_prefix p v =
+  (if ident_spec p && forallb is_ident_char v then Some (p ++ [45] ++ v) else None).
+Proof. exact ident_prefix_exact. Qed.
+Print Assumptions C18_prefix_exact.
